@@ -26,7 +26,14 @@ def main(argv=None):
     s.add_argument('what')
     s.add_argument('args', nargs='*')
     s.add_argument('--repo', default=os.environ.get('EVOSIM_REPO', '/repo'))
+    sub.add_parser('setup')
     args = ap.parse_args(argv)
+    if args.cmd == 'setup':
+        from evosim import runner
+        import django
+        runner.prepare_bytecode('/repo')
+        print('evosim setup ok: django %s' % django.get_version())
+        return 0
     if args.cmd == 'check':
         from evosim import engine
         tier = args.tier if args.tier in ('quick', 'thorough') else 'quick'
